@@ -359,7 +359,7 @@ func (r *runner) buildSeed(w *world.World, si int, cnt *Counters, check bool) *N
 			panic(fmt.Sprintf("HARNESS: seed %d op %s failed: %v", si, o, res.Err))
 		}
 		next.Depth = 0
-		next.Trace = nil
+		// (the trace keeps the seed prefix until the seed is complete, so that a failure inside the seed can be replayed)
 		next.Used = make([]int, len(r.sc.Budgets))
 		n = next
 	}
@@ -538,7 +538,17 @@ func WriteReplay(dir string, rf ReplayFile, name string) (string, error) {
 func Replay(sc *Scenario, w *world.World, seed int, ops []world.Op, verbose bool) (last []Failure, all []Failure, stateHash [32]byte) {
 	r := &runner{sc: sc, vis: newVisited(), rep: &Report{fails: map[string]*FailRec{}}, maxFail: 1 << 60}
 	cnt := &Counters{M: map[string]int64{}}
-	n := r.buildSeed(w, seed, cnt, false)
+	var n *Node
+	if len(ops) > 0 && ops[0].Class == -1 {
+		// the failure occurred while the seed history itself was being executed (seed operations carry class -1): the trace
+		// is a prefix of the seed and starts at the root state
+		n = &Node{Ctx: w.Root, W: w, Used: make([]int, len(sc.Budgets))}
+		if sc.NewRef != nil {
+			n.Ref = sc.NewRef(w, n)
+		}
+	} else {
+		n = r.buildSeed(w, seed, cnt, false)
+	}
 	for i, op := range ops {
 		res := w.Exec(n.Ctx, op)
 		next := &Node{Ctx: res.Ctx, W: w, Depth: n.Depth + 1, Used: append([]int{}, n.Used...)}
